@@ -20,7 +20,7 @@ func genBasic(rng *rand.Rand, seed int64) *Scenario {
 	n := 2 + rng.Intn(3)
 	sc := &Scenario{Name: "basic", Seed: seed, StoreTTL: 3 * h, Lat: map[int]LatSpec{0: {Min: 1 * ms, Max: h / 4}},
 		WatchMin: 1 * ms, WatchMax: h / 2, End: 12 * h, Sample: h / 2,
-		Responsive: true, NoOutside: true, NoPreempt: true, FaultFree: true}
+		Responsive: true, NoOutside: true, NoPreempt: true, FaultFree: true, MaxLat: h / 4}
 	for i := 1; i <= n; i++ {
 		sc.Insts = append(sc.Insts, baseInst(i, h))
 		sc.Steps = append(sc.Steps, Step{At: time.Duration(rng.Int63n(int64(2 * h))), Kind: "start", Inst: i})
@@ -38,7 +38,7 @@ func genStopPoints(rng *rand.Rand, seed int64) *Scenario {
 	n := 1 + rng.Intn(3)
 	sc := &Scenario{Name: "stoppoints", Seed: seed, StoreTTL: 3 * h, Lat: map[int]LatSpec{0: {Min: 20 * ms, Max: h / 4}},
 		WatchMin: 1 * ms, WatchMax: h / 4, End: 14 * h, Sample: h / 2, Plans: map[string]OpPlan{},
-		Responsive: true, NoOutside: true, NoPreempt: true}
+		Responsive: true, NoOutside: true, NoPreempt: true, MaxLat: h / 4}
 	for i := 1; i <= n; i++ {
 		is := baseInst(i, h)
 		if rng.Intn(3) == 0 {
@@ -141,7 +141,7 @@ func genConn(rng *rand.Rand, seed int64) *Scenario {
 		}
 	}
 	sc := &Scenario{Name: "conn", Seed: seed, StoreTTL: 3 * h, Lat: map[int]LatSpec{0: {Min: 1 * ms, Max: h / 8}},
-		WatchMin: 1 * ms, WatchMax: h / 8, Sample: h / 2, NoPreempt: true, ConnOnly: true}
+		WatchMin: 1 * ms, WatchMax: h / 8, Sample: h / 2, NoPreempt: true, ConnOnly: true, MaxLat: h / 8}
 	n := 1 + rng.Intn(2)
 	for i := 1; i <= n; i++ {
 		is := baseInst(i, h)
@@ -180,5 +180,365 @@ func genConn(rng *rand.Rand, seed int64) *Scenario {
 		sc.Steps = append(sc.Steps, Step{At: 2*h + time.Duration(rng.Int63n(int64(g+h))), Kind: []string{"stop", "stopctx"}[rng.Intn(2)], Inst: 1})
 	}
 	sc.End = t + g + 3*h
+	return sc
+}
+
+// genFaults: the leader's store operations start failing at some attempt (immediate errors, hangs,
+// lost acknowledgements, partition, crash) and possibly recover; candidates may suffer transient
+// failures too.  Exercises C03(b), C06, C08, C19.
+func genFaults(rng *rand.Rand, seed int64) *Scenario {
+	h := []time.Duration{200 * ms, 400 * ms, 1000 * ms, 2000 * ms}[rng.Intn(4)]
+	n := 1 + rng.Intn(3)
+	sc := &Scenario{Name: "faults", Seed: seed, StoreTTL: 3 * h, Lat: map[int]LatSpec{0: {Min: 1 * ms, Max: h / 8}},
+		WatchMin: 1 * ms, WatchMax: h / 8, Sample: h / 2, NoOutside: true, NoPreempt: true, MaxLat: h / 8}
+	for i := 1; i <= n; i++ {
+		is := baseInst(i, h)
+		if rng.Intn(2) == 0 {
+			is.Promote = "block"
+		}
+		if rng.Intn(4) == 0 {
+			is.Val = h + time.Duration(rng.Int63n(int64(2*h)))
+		}
+		sc.Insts = append(sc.Insts, is)
+		sc.Steps = append(sc.Steps, Step{At: time.Duration(i-1) * 30 * ms, Kind: "start", Inst: i})
+	}
+	from := 2*h + time.Duration(rng.Int63n(int64(3*h)))
+	dur := time.Duration(rng.Int63n(int64(8 * h)))
+	to := from + dur
+	switch rng.Intn(4) {
+	case 0: // instance 1 (the first leader) gets faulty answers in a window
+		kinds := [][]string{{"err"}, {"hang"}, {"acklost"}, {"err", "hang", "acklost", "hangafter"}}[rng.Intn(4)]
+		sc.Lat[1] = LatSpec{Min: 1 * ms, Max: h / 8, FaultProb: []float64{1, 1, 0.5}[rng.Intn(3)], Faults: kinds, From: from, To: to}
+	case 1: // partition, healed later
+		sc.Steps = append(sc.Steps, Step{At: from, Kind: "partition", Inst: 1, N: 1}, Step{At: to, Kind: "partition", Inst: 1, N: 0})
+	case 2: // crash for good
+		sc.Steps = append(sc.Steps, Step{At: from, Kind: "crash", Inst: 1})
+		to = from
+	default: // everybody gets transient errors in the window
+		sc.Lat[0] = LatSpec{Min: 1 * ms, Max: h / 8, FaultProb: 0.6, Faults: []string{"err", "acklost"}, From: from, To: to}
+	}
+	if rng.Intn(3) == 0 {
+		sc.WatchDrop = 0.5
+	}
+	if rng.Intn(4) == 0 {
+		sc.Steps = append(sc.Steps, Step{At: from + time.Duration(rng.Int63n(int64(h))), Kind: "watchfail", Inst: 1 + rng.Intn(n), N: 1 + rng.Intn(2)})
+	}
+	sc.FaultsEnd = to + 1
+	if sc.WatchDrop > 0 {
+		sc.FaultsEnd = 1 << 60 // lost events all along: the periodic check is what C06 relies on, but keep its clock simple
+		sc.MaxLat = h / 8
+	}
+	sc.End = to + 12*h
+	return sc
+}
+
+// genHealth: scripted health-check results over several terms (C12).
+func genHealth(rng *rand.Rand, seed int64) *Scenario {
+	h := []time.Duration{200 * ms, 500 * ms}[rng.Intn(2)]
+	sc := &Scenario{Name: "health", Seed: seed, StoreTTL: 3 * h, Lat: map[int]LatSpec{0: {Min: 1 * ms, Max: h / 8}},
+		WatchMin: 1 * ms, WatchMax: h / 8, Sample: h / 2, NoOutside: true, NoPreempt: true, Responsive: true, MaxLat: h / 8}
+	is := baseInst(1, h)
+	is.HasHealth = true
+	is.MaxFail = rng.Intn(6) // 0 = default 3
+	m := is.MaxFail
+	if m == 0 {
+		m = 3
+	}
+	ticks := 20 + rng.Intn(30)
+	run := 0
+	for k := 0; k < ticks; k++ {
+		r := 1
+		switch rng.Intn(6) {
+		case 0, 1, 2:
+			r = 0
+		case 3:
+			r = 2
+		}
+		// bias towards runs around the threshold
+		if run > 0 && run < m && rng.Intn(3) > 0 {
+			r = 0
+		}
+		if r == 0 {
+			run++
+		} else {
+			run = 0
+		}
+		is.Health = append(is.Health, r)
+	}
+	if rng.Intn(3) == 0 {
+		is.Promote = "block"
+	}
+	sc.Insts = append(sc.Insts, is)
+	sc.Steps = append(sc.Steps, Step{At: 0, Kind: "start", Inst: 1})
+	if rng.Intn(2) == 0 {
+		sc.Insts = append(sc.Insts, baseInst(2, h))
+		sc.Steps = append(sc.Steps, Step{At: 10 * ms, Kind: "start", Inst: 2})
+	}
+	sc.End = time.Duration(ticks+12) * h
+	return sc
+}
+
+var tamperValues = []string{
+	"", "not json", "{", "[]", "null", "42", `"str"`, `{"id":7,"token":true}`, `{"id":"i1"}`, `{"token":"t"}`,
+	`{"id":"i1","token":"forged"}`, `{"id":"i2","token":"forged","priority":9}`, `{"ID":"i1","TOKEN":"x"}`,
+	`{"id":"i1","token":"a","token":"b"}`, `{"id":"intruder","token":"zzz","priority":-1}`, `{"id":"","token":""}`,
+	`{"id":"i1","token":"forged","priority":"high"}`, `{"id":null,"token":null}`, "\xff\xfe", `{"id":"i1","token":"x","extra":{"a":[1,2,3]}}`,
+}
+
+// genTamper: an outside party rewrites or deletes the record at arbitrary moments with arbitrary
+// bytes; ValidateToken / ValidateTokenOrDemote calls race with it (C13, C04, C03a).
+func genTamper(rng *rand.Rand, seed int64) *Scenario {
+	h := []time.Duration{200 * ms, 500 * ms, 1000 * ms}[rng.Intn(3)]
+	n := 1 + rng.Intn(3)
+	sc := &Scenario{Name: "tamper", Seed: seed, StoreTTL: 3 * h, Lat: map[int]LatSpec{0: {Min: 1 * ms, Max: h / 8}},
+		WatchMin: 1 * ms, WatchMax: h / 4, Sample: h / 2, NoPreempt: true, MaxLat: h / 8}
+	for i := 1; i <= n; i++ {
+		is := baseInst(i, h)
+		if rng.Intn(3) == 0 {
+			is.Takeover = true
+			is.Prio = 1 + rng.Intn(3)
+			sc.NoPreempt = false
+		}
+		if rng.Intn(3) == 0 {
+			is.Val = h + time.Duration(rng.Int63n(int64(h)))
+		}
+		sc.Insts = append(sc.Insts, is)
+		sc.Steps = append(sc.Steps, Step{At: time.Duration(i-1) * 40 * ms, Kind: "start", Inst: i})
+	}
+	k := 1 + rng.Intn(4)
+	t := time.Duration(rng.Int63n(int64(3 * h)))
+	for j := 0; j < k; j++ {
+		t += time.Duration(rng.Int63n(int64(3*h))) + time.Duration(1+rng.Intn(400))*time.Microsecond
+		if rng.Intn(4) == 0 {
+			sc.Steps = append(sc.Steps, Step{At: t, Kind: "extdelete", Key: "g"})
+		} else {
+			v := tamperValues[rng.Intn(len(tamperValues))]
+			if rng.Intn(8) == 0 {
+				v = `{"id":"i1","token":"` + string(make([]byte, 0)) + `big","pad":"` + bigString(1<<16) + `"}`
+			}
+			sc.Steps = append(sc.Steps, Step{At: t, Kind: "extput", Key: "g", Bytes: v})
+		}
+		if rng.Intn(2) == 0 {
+			kind := []string{"validate", "validate-or-demote"}[rng.Intn(2)]
+			st := Step{At: t + time.Duration(rng.Int63n(int64(h))) - h/2, Kind: kind, Inst: 1 + rng.Intn(n)}
+			if rng.Intn(3) == 0 {
+				st.CtxTimeout = time.Duration(1+rng.Intn(int(h/8/ms)+1)) * ms
+			}
+			if st.At < 0 {
+				st.At = 0
+			}
+			sc.Steps = append(sc.Steps, st)
+		}
+	}
+	for j := 0; j < 3; j++ {
+		sc.Steps = append(sc.Steps, Step{At: time.Duration(rng.Int63n(int64(t + 2*h))), Kind: []string{"validate", "validate-or-demote"}[rng.Intn(2)], Inst: 1 + rng.Intn(n)})
+	}
+	sc.End = t + 10*h
+	return sc
+}
+
+func bigString(n int) string {
+	b := make([]byte, n)
+	for i := range b {
+		b[i] = 'a' + byte(i%26)
+	}
+	return string(b)
+}
+
+// genTakeover: priorities and takeover flags over 2-5 instances, all start orders (C10, C01, C05).
+func genTakeover(rng *rand.Rand, seed int64) *Scenario {
+	h := []time.Duration{200 * ms, 500 * ms, 1000 * ms}[rng.Intn(3)]
+	n := 2 + rng.Intn(4)
+	sc := &Scenario{Name: "takeover", Seed: seed, StoreTTL: 3 * h, Lat: map[int]LatSpec{0: {Min: 1 * ms, Max: h / 10}},
+		WatchMin: 1 * ms, WatchMax: h / 10, Sample: h / 2, NoOutside: true, MaxLat: h / 10, Responsive: true}
+	for i := 1; i <= n; i++ {
+		is := baseInst(i, h)
+		is.Prio = rng.Intn(4)
+		is.Takeover = rng.Intn(3) > 0 && is.Prio > 0
+		if rng.Intn(4) == 0 {
+			is.Promote = "block"
+		}
+		sc.Insts = append(sc.Insts, is)
+		sc.Steps = append(sc.Steps, Step{At: time.Duration(rng.Int63n(int64(6 * h))), Kind: "start", Inst: i})
+	}
+	if rng.Intn(3) == 0 {
+		sc.Steps = append(sc.Steps, Step{At: 8*h + time.Duration(rng.Int63n(int64(4*h))), Kind: []string{"stop", "stopctx"}[rng.Intn(2)], Inst: 1 + rng.Intn(n), Del: rng.Intn(2) == 0})
+	}
+	if rng.Intn(3) == 0 {
+		// slow down one instance's operations so that its reads span other instances' writes
+		sc.Lat[1+rng.Intn(n)] = LatSpec{Min: h / 4, Max: 2 * h}
+		sc.Responsive = false
+		sc.MaxLat = 0
+	}
+	sc.End = 20 * h
+	return sc
+}
+
+// genVacancy: the leader disappears (graceful stop with deletion, crash, partition, outside deletion)
+// while candidates are healthy; any subset of watch events may be lost (C06).
+func genVacancy(rng *rand.Rand, seed int64) *Scenario {
+	h := []time.Duration{200 * ms, 500 * ms, 1000 * ms}[rng.Intn(3)]
+	n := 2 + rng.Intn(3)
+	sc := &Scenario{Name: "vacancy", Seed: seed, StoreTTL: 3 * h, Lat: map[int]LatSpec{0: {Min: 1 * ms, Max: h / 8}},
+		WatchMin: 1 * ms, WatchMax: h / 2, Sample: h / 2, NoPreempt: true, MaxLat: h / 8, NoOutside: true}
+	for i := 1; i <= n; i++ {
+		sc.Insts = append(sc.Insts, baseInst(i, h))
+		sc.Steps = append(sc.Steps, Step{At: time.Duration(i-1) * 40 * ms, Kind: "start", Inst: i})
+	}
+	sc.WatchDrop = []float64{0, 0.3, 1}[rng.Intn(3)]
+	at := 3*h + time.Duration(rng.Int63n(int64(3*h)))
+	switch rng.Intn(4) {
+	case 0:
+		sc.Steps = append(sc.Steps, Step{At: at, Kind: "stopctx", Inst: 1, Del: true})
+	case 1:
+		sc.Steps = append(sc.Steps, Step{At: at, Kind: "crash", Inst: 1})
+	case 2:
+		sc.Steps = append(sc.Steps, Step{At: at, Kind: "partition", Inst: 1, N: 1})
+	default:
+		sc.NoOutside = false
+		sc.Steps = append(sc.Steps, Step{At: at, Kind: "extdelete", Key: "g"})
+	}
+	if rng.Intn(3) == 0 {
+		// a candidate's Watch call fails once or twice around the event
+		sc.Steps = append(sc.Steps, Step{At: time.Duration(rng.Int63n(int64(at))), Kind: "watchfail", Inst: 2, N: 1 + rng.Intn(2)})
+	}
+	sc.End = at + 14*h
+	return sc
+}
+
+// genTakeoverStop: a lower-priority leader is preempted and shut down gracefully with DeleteKey at a
+// chosen phase of the preemptor's takeover write (before it noticed the preemption) (C01, C09, C10).
+func genTakeoverStop(rng *rand.Rand, seed int64) *Scenario {
+	h := []time.Duration{500 * ms, 1000 * ms}[rng.Intn(2)]
+	sc := &Scenario{Name: "takeoverstop", Seed: seed, StoreTTL: 3 * h, Lat: map[int]LatSpec{0: {Min: 1 * ms, Max: 10 * ms}},
+		WatchMin: h / 2, WatchMax: h, Sample: h / 2, NoOutside: true, MaxLat: 0}
+	a := baseInst(1, h)
+	a.Prio = 1
+	c := baseInst(2, h)
+	c.Prio = 2
+	c.Takeover = true
+	sc.Insts = []InstSpec{a, c}
+	sc.Steps = append(sc.Steps, Step{At: 0, Kind: "start", Inst: 1})
+	sc.Steps = append(sc.Steps, Step{At: h/4 + time.Duration(rng.Int63n(int64(h/2))), Kind: "start", Inst: 2})
+	sc.Plans = map[string]OpPlan{"2:2": {Pre: 5*ms + 1, Post: 5*ms + 1}}
+	phase := []string{"call", "apply"}[rng.Intn(2)]
+	st := Step{Kind: "stopctx", Inst: 1, Del: true, Wait: rng.Intn(2) == 0}
+	if rng.Intn(4) == 0 {
+		st.Del = false
+	}
+	sc.Triggers = []Trigger{{Inst: 2, Nth: 2, Phase: phase, Delay: time.Duration(rng.Intn(12)) * ms, Step: st}}
+	sc.End = 8 * h
+	return sc
+}
+
+// genStopTimeout: StopWithContext with a short time-out while tracked work cannot finish
+// (a promotion callback that ignores its context, a hung store operation) (C08, C09).
+func genStopTimeout(rng *rand.Rand, seed int64) *Scenario {
+	h := 500 * ms
+	sc := &Scenario{Name: "stoptimeout", Seed: seed, StoreTTL: 3 * h, Lat: map[int]LatSpec{0: {Min: 1 * ms, Max: 20 * ms}},
+		WatchMin: 1 * ms, WatchMax: 20 * ms, Sample: h / 2, NoOutside: true, NoPreempt: true, MaxLat: 20 * ms}
+	a := baseInst(1, h)
+	a.Promote = "sleep"
+	sc.Insts = []InstSpec{a}
+	sc.Steps = append(sc.Steps, Step{At: 0, Kind: "start", Inst: 1})
+	st := Step{At: h + time.Duration(rng.Int63n(int64(h))), Kind: "stopctx", Inst: 1, Timeout: time.Duration(200+rng.Intn(800)) * ms, Del: rng.Intn(2) == 0, Wait: rng.Intn(2) == 0}
+	if rng.Intn(3) == 0 {
+		st.Timeout = 0
+		st.CtxTimeout = time.Duration(200+rng.Intn(800)) * ms
+	}
+	sc.Steps = append(sc.Steps, st)
+	if rng.Intn(2) == 0 {
+		sc.Steps = append(sc.Steps, Step{At: st.At + 6*time.Second, Kind: "stop", Inst: 1})
+	}
+	sc.End = st.At + 8*time.Second
+	return sc
+}
+
+// genSpin: zero-latency store, unparsable or odd record contents, takeover-enabled candidates (C13).
+func genSpin(rng *rand.Rand, seed int64) *Scenario {
+	h := 500 * ms
+	sc := &Scenario{Name: "spin", Seed: seed, StoreTTL: 3 * h, Lat: map[int]LatSpec{0: {Min: 0, Max: 0}},
+		WatchMin: 0, WatchMax: 1 * ms, Sample: h, MaxLat: 0}
+	n := 1 + rng.Intn(2)
+	for i := 1; i <= n; i++ {
+		is := baseInst(i, h)
+		is.Takeover = true
+		is.Prio = 1 + rng.Intn(3)
+		sc.Insts = append(sc.Insts, is)
+	}
+	v := tamperValues[rng.Intn(len(tamperValues))]
+	sc.Steps = append(sc.Steps, Step{At: 0, Kind: "extput", Key: "g", Bytes: v})
+	for i := 1; i <= n; i++ {
+		sc.Steps = append(sc.Steps, Step{At: time.Duration(1+rng.Intn(100)) * ms, Kind: "start", Inst: i})
+	}
+	// keep the odd record alive for a while
+	for k := 1; k < 4; k++ {
+		sc.Steps = append(sc.Steps, Step{At: time.Duration(k) * h, Kind: "extput", Key: "g", Bytes: v})
+	}
+	sc.End = 8 * h
+	return sc
+}
+
+// genSlowHB: short heartbeat intervals (H < 333 ms, so that the 1 s floor of the update time-out exceeds
+// 3 H) with refreshes that take almost the whole time-out, then an outage (C03b's bound).
+func genSlowHB(rng *rand.Rand, seed int64) *Scenario {
+	h := []time.Duration{100 * ms, 200 * ms, 300 * ms, 400 * ms}[rng.Intn(4)]
+	sc := &Scenario{Name: "slowhb", Seed: seed, StoreTTL: 3 * h, Lat: map[int]LatSpec{0: {Min: 1 * ms, Max: 10 * ms}},
+		WatchMin: 1 * ms, WatchMax: 10 * ms, Sample: 250 * ms, NoOutside: true, NoPreempt: true, MaxLat: 0}
+	is := baseInst(1, h)
+	is.TTL = 30 * time.Second // keep the record alive: only the heartbeat failure path is of interest
+	sc.StoreTTL = 30 * time.Second
+	sc.Insts = []InstSpec{is}
+	sc.Steps = append(sc.Steps, Step{At: 0, Kind: "start", Inst: 1})
+	sc.Plans = map[string]OpPlan{}
+	// operation 0 is the Create; refreshes are operations 1, 2, ... (no watcher for an instance that leads from the start)
+	k := 1 + rng.Intn(4)
+	for j := 1; j <= k; j++ {
+		d := time.Duration(700+rng.Intn(290)) * ms
+		if rng.Intn(3) == 0 {
+			d = time.Duration(5+rng.Intn(50)) * ms
+		}
+		sc.Plans[fmt.Sprintf("1:%d", j)] = OpPlan{Pre: d/2 + 1, Post: d / 2}
+	}
+	fault := []string{"hang", "err", "acklost", "hangafter"}[rng.Intn(4)]
+	for j := k + 1; j <= k+6; j++ {
+		p := OpPlan{Pre: 1*ms + 1, Post: 1 * ms, Fault: fault, Err: "timeout"}
+		if fault == "err" && rng.Intn(2) == 0 {
+			p.Pre, p.Post = time.Duration(400+rng.Intn(500))*ms+1, 0
+		}
+		sc.Plans[fmt.Sprintf("1:%d", j)] = p
+	}
+	sc.End = time.Duration(k+8) * time.Second
+	return sc
+}
+
+// genHealthRace: a leader whose health checks are slow (up to just under the 100 ms limit) is
+// preempted or tampered with while a check is running; the tick body continues afterwards (C01, C12).
+func genHealthRace(rng *rand.Rand, seed int64) *Scenario {
+	h := []time.Duration{200 * ms, 300 * ms, 500 * ms}[rng.Intn(3)]
+	sc := &Scenario{Name: "healthrace", Seed: seed, StoreTTL: 3 * h, Lat: map[int]LatSpec{0: {Min: 1 * ms, Max: 8 * ms}},
+		WatchMin: 1 * ms, WatchMax: 10 * ms, Sample: h / 2, NoOutside: true, MaxLat: 0}
+	a := baseInst(1, h)
+	a.Prio = 1
+	a.HasHealth = true
+	for k := 0; k < 40; k++ {
+		a.Health = append(a.Health, 3)
+	}
+	b := baseInst(2, h)
+	b.Prio = 2
+	b.Takeover = true
+	sc.Insts = []InstSpec{a, b}
+	// A first meets a foreign record (so that it starts as a follower and keeps its watch loop when it leads later)
+	sc.NoOutside = false
+	sc.Steps = append(sc.Steps, Step{At: 0, Kind: "extput", Key: "g", Bytes: `{"id":"old","token":"old-token","priority":9}`})
+	sc.Steps = append(sc.Steps, Step{At: time.Duration(1+rng.Intn(400)) * ms, Kind: "start", Inst: 1})
+	// B starts at a random phase of A's ticks once A leads (A acquires after the foreign record expired at 3H)
+	k := 5 + rng.Intn(4)
+	sc.Steps = append(sc.Steps, Step{At: time.Duration(k)*h + time.Duration(rng.Int63n(int64(h))), Kind: "start", Inst: 2})
+	if rng.Intn(2) == 0 {
+		sc.NoOutside = false
+		sc.Steps = append(sc.Steps, Step{At: time.Duration(k+2)*h + time.Duration(rng.Intn(90))*ms, Kind: "extput", Key: "g", Bytes: `{"id":"intruder","token":"zzz","priority":5}`})
+	}
+	sc.End = time.Duration(k+8) * h
 	return sc
 }
